@@ -10,6 +10,8 @@ object is decoded by the model (`SS.ExcTable.parseTable`) and the handler walk (
 from __future__ import annotations
 
 import json
+import sys
+import os
 import random
 import warnings
 from typing import Any, Dict, List, Optional
@@ -96,6 +98,8 @@ class C01(PropCheck):
             for _ in range(reps):
                 out.append({"k": "prog", "kind": kind, "pseed": seed, "depth": depth,
                             "choices": [rng.randrange(6) for _ in range(rng.randint(0, 14))]})
+        # the same under `python -O` (asserts compiled out: the analysis must not depend on an assert statement for its effects)
+        out.append({"k": "optimized", "n": 25 if tier == "quick" else 150, "oseed": rng.randrange(1 << 30)})
         # where the value stack starts: the slot count used by inspect_frame (tied to the source through the generated constant
         # nlocalsplusExpr) against CPython's own layout, on every code object of the corpus and of a slice of the standard library
         from .c08 import stdlib_files
@@ -165,8 +169,39 @@ class C01(PropCheck):
         case["_shared"] = sum(bool(set(co.co_varnames) & (set(co.co_cellvars) | set(co.co_freevars))) for co in codes)
         return " ".join(map(str, reals))
 
+    def run_optimized(self, case):
+        import subprocess
+
+        from ..core import REPO, VERIF
+
+        code = ("import sys, json, random\n"
+                "assert_on = False\n"
+                "try:\n    assert False\nexcept AssertionError:\n    assert_on = True\n"
+                "from harness import progs\nfrom harness.props.c01 import observe_suspended\n"
+                "n, seed = int(sys.argv[1]), int(sys.argv[2])\nrng = random.Random(seed)\nprobs, obs = [], 0\n"
+                "jobs = [(k, s, [1, 0, 1, 1, 0, 1]) for k, s in progs.CORPUS if k != 'sync']\n"
+                "for _ in range(n):\n    k = rng.choice(['gen', 'coro', 'agen'])\n"
+                "    jobs.append((k, progs.gen_program(random.Random(rng.randrange(1 << 30)), k, rng.randint(1, 3)), [rng.randrange(6) for _ in range(10)]))\n"
+                "for k, src, ch in jobs:\n    recs = []\n    p = []\n"
+                "    progs.run_program(src, k, ch, lambda w, label: observe_suspended(w, p, recs) if label == 'suspended' else None)\n"
+                "    obs += len(recs)\n    probs += [x for x in p if 'exception table entry' not in x][:2]\n"
+                "print(json.dumps({'asserts_enabled': assert_on, 'observations': obs, 'problems': probs[:6]}))\n")
+        env = dict(os.environ, PYTHONPATH=f"{REPO}:{VERIF}")
+        p = subprocess.run([sys.executable, "-O", "-c", code, str(case["n"]), str(case["oseed"])], capture_output=True, text=True, env=env, timeout=600)
+        try:
+            d = json.loads(p.stdout.strip().splitlines()[-1])
+        except Exception:
+            raise RuntimeError(f"-O worker failed: rc={p.returncode} {p.stderr[-400:]}")
+        if d["asserts_enabled"]:
+            raise RuntimeError("-O worker ran with asserts enabled")
+        self._probs = [f"under python -O: {x}" for x in d["problems"]]
+        case["_obs"] = d["observations"]
+        return f"observations={d['observations']} problems={len(d['problems'])}"
+
     def run_real(self, case):
         self._probs = []
+        if case["k"] == "optimized":
+            return self.run_optimized(case)
         if case["k"] == "slots":
             return self.run_slots(case)
         if case["k"] == "f2":
@@ -252,7 +287,7 @@ class C01(PropCheck):
             return f2[0] if f2 else None
         if case.get("k") == "f12":
             return probs[0] if probs else None
-        if case.get("k") == "slots":
+        if case.get("k") in ("slots", "optimized"):
             return "; ".join(probs[:2])[:900] if probs else None
         if self.f2_known:
             # an observation point at which the F2 warning fired is degraded as a whole (fallback analysis)
